@@ -1,4 +1,5 @@
 import Bardolph.Proofs.SimLoad
+import Bardolph.Proofs.SimCalls
 /-!
 # C01 — the compiled code does what the source says (simulation, partial)
 
@@ -69,8 +70,22 @@ theorem Sim.stmts_zero : StmtsGoal img K 0 := by
   simp only [execStmt, Prod.mk.injEq] at h
   rcases ho with rfl | rfl <;> simp at h
 
+/-- the call statement at fuel `f + 1`, given the block statements at the fuel of the body -/
+theorem Sim.stmt_call_any (f : Nat)
+    (ihB : ∀ g, g + 2 = f + 1 → ∀ r st, BlockGoal img ⟨some (r, st), K.routines⟩ g)
+    (ihBR : ∀ g, g + 2 = f + 1 → ∀ r st, BlockRet img ⟨some (r, st), K.routines⟩ g)
+    (hR : RoutinesAt img K.routines) (g : String) (ps : List String) (as : Args)
+    (has : SimpleArgs as) (hnr : NoResultReg as) (hnd : ps.Nodup) :
+    StmtGoal img K (.call g ps as) (f + 1) := by
+  cases f with
+  | zero => exact stmt_call_one g ps as
+  | succ f => exact stmt_call f (ihB f rfl) (ihBR f rfl) hR g ps as has hnr hnd
+
 theorem Sim.stmts_step (f : Nat) (ihB : BlockGoal img K f) (ihOs : OperandsGoal img K f)
-    (ihL : LoopGoal img K f) : StmtsGoal img K (f + 1) := by
+    (ihL : LoopGoal img K f)
+    (ihCB : ∀ g, g + 2 = f + 1 → ∀ r st, BlockGoal img ⟨some (r, st), K.routines⟩ g)
+    (ihCBR : ∀ g, g + 2 = f + 1 → ∀ r st, BlockRet img ⟨some (r, st), K.routines⟩ g)
+    (hR : RoutinesAt img K.routines) : StmtsGoal img K (f + 1) := by
   intro st hst
   cases st with
   | setReg r v => exact stmt_setReg f r v hst.1 hst.2
@@ -84,8 +99,8 @@ theorem Sim.stmts_step (f : Nat) (ihB : BlockGoal img K f) (ihOs : OperandsGoal 
   | assign n v => exact stmt_assign f n v hst
   | defMacro n v => exact stmt_defMacro f n v
   | defRoutine n ps body => exact absurd hst (by simp [FragStmt])
-  | call g ps as => exact absurd hst (by simp [FragStmt])
-  | ret v => exact absurd hst (by simp [FragStmt])
+  | call g ps as => exact stmt_call_any f ihCB ihCBR hR g ps as hst.1 hst.2.1 hst.2.2
+  | ret v => exact stmt_ret_goal f v hst
   | ite c t e =>
     cases e with
     | none => exact stmt_ite_none f ihB c hst.1 t hst.2.1
@@ -97,28 +112,60 @@ theorem Sim.stmts_step (f : Nat) (ihB : BlockGoal img K f) (ihOs : OperandsGoal 
   | printf fmt as => exact stmt_printf f fmt as hst.1 hst.2.1 hst.2.2
   | stage rows cols cf => exact stmt_stage f rows cols cf hst.1 hst.2
 
-/-- all the simulation statements at one fuel level, in every context -/
-structure Sim.AllGoals (img : Image) (f : Nat) : Prop where
-  stmts : ∀ K, StmtsGoal img K f
-  block : ∀ K, BlockGoal img K f
-  operand : ∀ K, OperandGoal img K f
-  operands : ∀ K, OperandsGoal img K f
-  loop : ∀ K, LoopGoal img K f
-  whileI : ∀ K, WhileIter img K f
-  countI : ∀ K, CountIter img K f
+/-- all the simulation statements at one fuel level, in every context with the routine table
+`R`: for the outcomes `normal` and `break` anywhere, for `return` inside a routine -/
+structure Sim.AllGoals (img : Image) (R : List (String × Sem.Routine)) (f : Nat) : Prop where
+  stmts : ∀ r, StmtsGoal img ⟨r, R⟩ f
+  block : ∀ r, BlockGoal img ⟨r, R⟩ f
+  operand : ∀ r, OperandGoal img ⟨r, R⟩ f
+  operands : ∀ r, OperandsGoal img ⟨r, R⟩ f
+  loop : ∀ r, LoopGoal img ⟨r, R⟩ f
+  whileI : ∀ r, WhileIter img ⟨r, R⟩ f
+  countI : ∀ r, CountIter img ⟨r, R⟩ f
+  stmtsR : ∀ r st, StmtsRet img ⟨some (r, st), R⟩ f
+  blockR : ∀ r st, BlockRet img ⟨some (r, st), R⟩ f
+  operandR : ∀ r st, OperandRet img ⟨some (r, st), R⟩ f
+  operandsR : ∀ r st, OperandsRet img ⟨some (r, st), R⟩ f
+  loopR : ∀ r st, LoopRet img ⟨some (r, st), R⟩ f
+  whileR : ∀ r st, WhileRet img ⟨some (r, st), R⟩ f
+  countR : ∀ r st, CountRet img ⟨some (r, st), R⟩ f
 
-theorem Sim.allGoals (img : Image) : ∀ f, AllGoals img f := by
+theorem Sim.allGoals_le (img : Image) (R : List (String × Sem.Routine)) (hR : RoutinesAt img R) :
+    ∀ f, ∀ g, g ≤ f → AllGoals img R g := by
   intro f
   induction f with
   | zero =>
+    intro g hg
+    obtain rfl : g = 0 := by omega
     exact ⟨fun _ => stmts_zero, fun _ => block_zero, fun _ => operand_zero, fun _ => operands_zero,
-      fun _ => loop_zero, fun _ => while_zero, fun _ => count_zero⟩
-  | succ f ih =>
-    exact ⟨fun K => stmts_step f (ih.block K) (ih.operands K) (ih.loop K),
-      fun K => block_step f (ih.stmts K) (ih.block K),
-      fun K => operand_step f (ih.block K), fun K => operands_step f (ih.operand K) (ih.operands K),
-      fun K => loop_step f (ih.whileI K) (ih.countI K), fun K => while_step f (ih.block K) (ih.whileI K),
-      fun K => count_step f (ih.block K) (ih.countI K)⟩
+      fun _ => loop_zero, fun _ => while_zero, fun _ => count_zero,
+      fun _ _ => stmts_ret_zero, fun _ _ => block_ret_zero, fun _ _ => operand_ret_zero,
+      fun _ _ => operands_ret_zero, fun _ _ => loop_ret_zero, fun _ _ => while_ret_zero,
+      fun _ _ => count_ret_zero⟩
+  | succ f ihle =>
+    intro g hg
+    by_cases hlt : g ≤ f
+    · exact ihle g hlt
+    · obtain rfl : g = f + 1 := by omega
+      have ih := ihle f (Nat.le_refl f)
+      exact ⟨fun r => stmts_step f (ih.block r) (ih.operands r) (ih.loop r)
+          (fun g hg r' st => (ihle g (by omega)).block (some (r', st)))
+          (fun g hg r' st => (ihle g (by omega)).blockR r' st) hR,
+        fun r => block_step f (ih.stmts r) (ih.block r),
+        fun r => operand_step f (ih.block r), fun r => operands_step f (ih.operand r) (ih.operands r),
+        fun r => loop_step f (ih.whileI r) (ih.countI r),
+        fun r => while_step f (ih.block r) (ih.whileI r),
+        fun r => count_step f (ih.block r) (ih.countI r),
+        fun r st => stmts_ret_step f (ih.blockR r st) (ih.operandsR r st) (ih.loopR r st) r st rfl,
+        fun r st => block_ret_step f (ih.stmts _) (ih.stmtsR r st) (ih.blockR r st),
+        fun r st => operand_ret_step f (ih.blockR r st),
+        fun r st => operands_ret_step f (ih.operand _) (ih.operandR r st) (ih.operandsR r st),
+        fun r st => loop_ret_step f (ih.whileR r st) (ih.countR r st),
+        fun r st => while_ret_step f (ih.block _) (ih.blockR r st) (ih.whileR r st),
+        fun r st => count_ret_step f (ih.block _) (ih.blockR r st) (ih.countR r st)⟩
+
+theorem Sim.allGoals (img : Image) (R : List (String × Sem.Routine)) (hR : RoutinesAt img R) (f : Nat) :
+    AllGoals img R f := allGoals_le img R hR f f (Nat.le_refl f)
 
 /-! ## the theorems -/
 
@@ -126,25 +173,27 @@ theorem Sim.allGoals (img : Image) : ∀ f, AllGoals img f := by
 any number of enclosing loops `stk`, `break`s resolved to jump to `exit`): if the source says the
 block ends normally, the machine arrives just past the code; if the source says `break`, the
 machine arrives at `exit`; in both cases in a state related to the source-level state. -/
-theorem C01_gen_sim_block (img : Image) (K : Ctx) (b : Block) (hb : FragBlock b) (f : Nat) (σ σ' : S)
+theorem C01_gen_sim_block (img : Image) (K : Ctx) (hR : RoutinesAt img K.routines) (b : Block)
+    (hb : FragBlock b) (f : Nat) (σ σ' : S)
     (o : Outcome) (s : State) (pc exit : Nat) (stk : List Frame)
     (hsim : Sim K stk σ s) (hpc : s.pc = (pc : Int))
     (hc : CodeAt img pc (resolve (genBlock b) pc exit))
     (h : execBlock f b σ = (o, σ')) (ho : o = .normal ∨ o = .brk) :
     ∃ k, (run img k s).pc = ((Target pc (genBlock b).length exit o : Nat) : Int) ∧
       Sim K stk σ' (run img k s) := by
-  obtain ⟨k, hk⟩ := (Sim.allGoals img f).block K b hb σ σ' o s pc exit stk hsim hpc hc h ho
+  obtain ⟨k, hk⟩ := (Sim.allGoals img K.routines hR f).block K.ret b hb σ σ' o s pc exit stk hsim hpc hc h ho
   exact ⟨k, hk.1, hk.2⟩
 
 /-- the same for a single statement -/
-theorem C01_gen_sim_stmt (img : Image) (K : Ctx) (st : Stmt) (hst : FragStmt st) (f : Nat) (σ σ' : S)
+theorem C01_gen_sim_stmt (img : Image) (K : Ctx) (hR : RoutinesAt img K.routines) (st : Stmt)
+    (hst : FragStmt st) (f : Nat) (σ σ' : S)
     (o : Outcome) (s : State) (pc exit : Nat) (stk : List Frame)
     (hsim : Sim K stk σ s) (hpc : s.pc = (pc : Int))
     (hc : CodeAt img pc (resolve (genStmt st) pc exit))
     (h : execStmt f st σ = (o, σ')) (ho : o = .normal ∨ o = .brk) :
     ∃ k, (run img k s).pc = ((Target pc (genStmt st).length exit o : Nat) : Int) ∧
       Sim K stk σ' (run img k s) := by
-  obtain ⟨k, hk⟩ := (Sim.allGoals img f).stmts K st hst σ σ' o s pc exit stk hsim hpc hc h ho
+  obtain ⟨k, hk⟩ := (Sim.allGoals img K.routines hR f).stmts K.ret st hst σ σ' o s pc exit stk hsim hpc hc h ho
   exact ⟨k, hk.1, hk.2⟩
 
 /-- **gen_sim_partial.**  For every statement list `b` of the fragment whose code `code` has no
@@ -156,14 +205,15 @@ many steps, a state with the program counter just past the code that is related 
 In words: the compiled code issues exactly the device commands, waits and output the source
 says, in the same order, and leaves every variable, macro and register (but the scratch register
 `result`) as the source says. -/
-theorem C01_gen_sim_partial (img : Image) (R : List (String × Sem.Routine)) (b : Block) (hb : FragBlock b) (code : List Instr)
+theorem C01_gen_sim_partial (img : Image) (R : List (String × Sem.Routine)) (hR : RoutinesAt img R)
+    (b : Block) (hb : FragBlock b) (code : List Instr)
     (hcode : Gen.genProgram b = some code) (f : Nat) (σ σ' : S) (s : State) (pc : Nat)
     (hsim : Sim ⟨none, R⟩ [] σ s) (hpc : s.pc = (pc : Int)) (hc : CodeAt img pc code)
     (h : execBlock f b σ = (.normal, σ')) :
     ∃ k, (run img k s).pc = ((pc + code.length : Nat) : Int) ∧ Sim ⟨none, R⟩ [] σ' (run img k s) := by
   have hres : resolve (genBlock b) pc (0 : Nat) = code := resolve_of_mapM _ _ hcode pc _
   have hlen : code.length = (genBlock b).length := by rw [← hres, resolve_length]
-  obtain ⟨k, hk1, hk2⟩ := C01_gen_sim_block img ⟨none, R⟩ b hb f σ σ' .normal s pc 0 [] hsim hpc
+  obtain ⟨k, hk1, hk2⟩ := C01_gen_sim_block img ⟨none, R⟩ hR b hb f σ σ' .normal s pc 0 [] hsim hpc
     (by rw [hres]; exact hc) h (Or.inl rfl)
   exact ⟨k, by rw [hk1, hlen]; rfl, hk2⟩
 
@@ -171,7 +221,8 @@ theorem C01_gen_sim_partial (img : Image) (R : List (String × Sem.Routine)) (b 
 is exactly the source-level trace — which by the definition of `Sem` consists of one group of
 events per dynamic execution of a statement, in program order — and so are the variables,
 macros, lights and all registers other than `result`. -/
-theorem C01_once_each_in_order (img : Image) (R : List (String × Sem.Routine)) (b : Block) (hb : FragBlock b) (code : List Instr)
+theorem C01_once_each_in_order (img : Image) (R : List (String × Sem.Routine)) (hR : RoutinesAt img R)
+    (b : Block) (hb : FragBlock b) (code : List Instr)
     (hcode : Gen.genProgram b = some code) (f : Nat) (σ σ' : S) (s : State) (pc : Nat)
     (hsim : Sim ⟨none, R⟩ [] σ s) (hpc : s.pc = (pc : Int)) (hc : CodeAt img pc code)
     (h : execBlock f b σ = (.normal, σ')) :
@@ -179,7 +230,7 @@ theorem C01_once_each_in_order (img : Image) (R : List (String × Sem.Routine)) 
       (run img k s).constants = σ'.vm.constants ∧ (run img k s).lights = σ'.vm.lights ∧
       (∀ r, r ≠ .result → (run img k s).regs r = σ'.vm.regs r) ∧
       (run img k s).status = .running ∧ (run img k s).pc = ((pc + code.length : Nat) : Int) := by
-  obtain ⟨k, hk1, hk2⟩ := C01_gen_sim_partial img R b hb code hcode f σ σ' s pc hsim hpc hc h
+  obtain ⟨k, hk1, hk2⟩ := C01_gen_sim_partial img R hR b hb code hcode f σ σ' s pc hsim hpc hc h
   exact ⟨k, hk2.trace.symm, hk2.globals.symm, hk2.constants.symm, hk2.lights.symm,
     fun r hr => (hk2.regs r hr).symm, hk2.running, hk1⟩
 
@@ -193,19 +244,24 @@ address 0 of an image that ends with it: if the source-level run (`Sem.run`) end
 machine started in its initial state halts, and what `Machine.run` leaves behind
 (`Vm.finish`) is the source-level trace followed by the final flush of the output sink. -/
 theorem C01_gen_sim_program (b : Block) (hb : FragBlock b) (code : List Instr)
-    (hcode : Gen.genProgram b = some code) (rts : List (String × Nat)) (f : Nat)
+    (hcode : Gen.genProgram b = some code) (f : Nat)
     (lights : List Light) (σ' : S) (h : Sem.run f b lights = (.normal, σ')) :
-    ∃ k, (run ⟨code.toArray, rts⟩ k (Vm.init lights)).status = .halted ∧
-      (Vm.finish (run ⟨code.toArray, rts⟩ k (Vm.init lights))).trace = .flush :: σ'.vm.trace := by
-  have hc : CodeAt ⟨code.toArray, rts⟩ 0 code := by
-    have := CodeAt.intro [] code [] rts
+    ∃ k, (run ⟨code.toArray, []⟩ k (Vm.init lights)).status = .halted ∧
+      (Vm.finish (run ⟨code.toArray, []⟩ k (Vm.init lights))).trace = .flush :: σ'.vm.trace := by
+  have hc : CodeAt ⟨code.toArray, []⟩ 0 code := by
+    have := CodeAt.intro [] code [] []
     simpa using this
-  obtain ⟨k, hk1, hk2⟩ := C01_gen_sim_partial ⟨code.toArray, rts⟩ _ b hb code hcode f _ σ'
-    (Vm.init lights) 0 (Sim.init lights _) rfl hc h
+  have hR : RoutinesAt ⟨code.toArray, []⟩ [] := fun name => rfl
+  have h' : execBlock f b { vm := Vm.init lights, routines := [] } = (.normal, σ') := by
+    have := h
+    simp only [Sem.run, collect_frag b hb, List.reverse_nil] at this
+    exact this
+  obtain ⟨k, hk1, hk2⟩ := C01_gen_sim_partial ⟨code.toArray, []⟩ [] hR b hb code hcode f _ σ'
+    (Vm.init lights) 0 (Sim.init lights []) rfl hc h'
   refine ⟨k + 1, ?_⟩
   rw [run_add, run_one _ _ hk2.running]
-  generalize run ⟨code.toArray, rts⟩ k (Vm.init lights) = t at hk1 hk2
-  have hstep : step ⟨code.toArray, rts⟩ t = { t with status := .halted } := by
+  generalize run ⟨code.toArray, []⟩ k (Vm.init lights) = t at hk1 hk2
+  have hstep : step ⟨code.toArray, []⟩ t = { t with status := .halted } := by
     unfold step
     have h0 : ¬ (t.pc < 0) := by omega
     have h1 : t.pc.toNat = code.length := by omega
@@ -214,7 +270,6 @@ theorem C01_gen_sim_program (b : Block) (hb : FragBlock b) (code : List Instr)
   rw [hstep]
   refine ⟨rfl, ?_⟩
   simp only [Vm.finish, hk2.unnamed, List.foldl_nil, State.emit, hk2.trace]
-
 
 /-- **whole scripts, through the loader.**  The same for the image the loader makes of the
 compiled script (`Loader.load`): a script of the fragment has no routines, so the loader leaves
@@ -225,7 +280,7 @@ theorem C01_gen_sim_loaded (b : Block) (hb : FragBlock b) (code : List Instr)
     ∃ k, (run (Loader.load code) k (Vm.init lights)).status = .halted ∧
       (Vm.finish (run (Loader.load code) k (Vm.init lights))).trace = .flush :: σ'.vm.trace := by
   rw [load_fragment b hb code hcode]
-  exact C01_gen_sim_program b hb code hcode [] f lights σ' h
+  exact C01_gen_sim_program b hb code hcode f lights σ' h
 
 /-! ## non-vacuity
 
@@ -335,7 +390,7 @@ theorem c01Script_sem : (Sem.run 200 c01Script c01Lights).1 = .normal := by deci
 example : ∃ k, (run ⟨c01Code.toArray, []⟩ k (Vm.init c01Lights)).status = .halted ∧
     (Vm.finish (run ⟨c01Code.toArray, []⟩ k (Vm.init c01Lights))).trace =
       .flush :: (Sem.run 200 c01Script c01Lights).2.vm.trace :=
-  C01_gen_sim_program c01Script c01Script_frag c01Code c01Script_code [] 200 c01Lights
+  C01_gen_sim_program c01Script c01Script_frag c01Code c01Script_code 200 c01Lights
     (Sem.run 200 c01Script c01Lights).2 (eq_of_fst c01Script_sem)
 
 /-- the same through the loader -/
@@ -490,7 +545,7 @@ theorem c01Script2_sem : (Sem.run 200 c01Script2 c01Lights2).1 = .normal := by d
 example : ∃ k, (run ⟨c01Code2.toArray, []⟩ k (Vm.init c01Lights2)).status = .halted ∧
     (Vm.finish (run ⟨c01Code2.toArray, []⟩ k (Vm.init c01Lights2))).trace =
       .flush :: (Sem.run 200 c01Script2 c01Lights2).2.vm.trace :=
-  C01_gen_sim_program c01Script2 c01Script2_frag c01Code2 c01Script2_code [] 200 c01Lights2
+  C01_gen_sim_program c01Script2 c01Script2_frag c01Code2 c01Script2_code 200 c01Lights2
     (Sem.run 200 c01Script2 c01Lights2).2 (eq_of_fst c01Script2_sem)
 
 example : (Vm.finish (Vm.run (Loader.load c01Code2) 500 (Vm.init c01Lights2))).trace =
